@@ -38,7 +38,7 @@ TRUSTED = [
     "C07 Process.cpu_percent: /proc/<pid>/stat parsing itself is C06's subject; here utime/stime reach the model as tick counts",
 ]
 MANIFEST = {
-    "level_text": "Machine-checked Lean 4 proofs over an exact-rational model of the Linux /proc/stat parser and of the cpu_percent / cpu_times_percent / Process.cpu_percent front ends: parse∘render round trip for every kernel state (C07_times_exact, C07_per_cpu_times_exact, kernel order C07_fields_kernel_order), cpu_percent = round1(100·busy/total) for all rational samples and all four field sets (C07_percent_formula), range [0,100] (C07_percent_range), decreasing counters contribute zero (C07_decreasing_field_contributes_zero), guest not double counted (C07_guest_not_double_counted, C07_guest_accounting), cpu_times_percent shares within [0,100] (C07_tp_range) adding up to exactly 100 before rounding and within 0.05 per field after (C07_tp_sum_exact, C07_tp_sum_rounded) for EVERY positive total; the full statement C07_tp_sum_Full is proved for the guard `100/all_delta if all_delta > 0` (C07_tp_sum_fixed), proved for totals ≥ 1 s for the current guard (C07_tp_sum_partial) and REFUTED for the current `max(1, all_delta)` guard with a 0.1 s witness (C07_tp_sum_counterexample; known finding C07-tp-subsecond); every call is measured against the same thread's previous sample for every history (C07_own_previous_sample, by induction), thread independence for serial histories and for every interleaving of dictionary accesses (C07_thread_independence, C07_thread_independence_interleaved), Process.cpu_percent formula/first call/negative interval/object independence (C07_proc_percent, …). The model is tied to the code by 23 translator facts feeding the proof obligation cfg_good and by a differential run of the real functions on generated kernel states, call histories from real threads and Process histories.",
+    "level_text": "Machine-checked Lean 4 proofs over an exact-rational model of the Linux /proc/stat parser and of the cpu_percent / cpu_times_percent / Process.cpu_percent front ends: parse∘render round trip for every kernel state (C07_times_exact, C07_per_cpu_times_exact, kernel order C07_fields_kernel_order), cpu_percent = round1(100·busy/total) for all rational samples and all four field sets (C07_percent_formula), range [0,100] (C07_percent_range), decreasing counters contribute zero (C07_decreasing_field_contributes_zero), guest not double counted (C07_guest_not_double_counted, C07_guest_accounting), cpu_times_percent shares within [0,100] (C07_tp_range) adding up to exactly 100 before rounding and within 0.05 per field after (C07_tp_sum_exact, C07_tp_sum_rounded) for EVERY positive total; the full statement C07_tp_sum_Full is proved for the guard `100/all_delta if all_delta > 0` (C07_tp_sum_fixed), proved for totals ≥ 1 s for the current guard (C07_tp_sum_partial) and REFUTED for the current `max(1, all_delta)` guard with a 0.1 s witness (C07_tp_sum_counterexample; known finding C07-tp-subsecond); every call is measured against the same thread's previous sample for every history (C07_own_previous_sample, by induction), thread independence for serial histories and for every interleaving of dictionary accesses (C07_thread_independence, C07_thread_independence_interleaved), Process.cpu_percent formula/first call/negative interval/object independence (C07_proc_percent, …). The model is tied to the code by 20 translator facts feeding the proof obligation cfg_good and by a differential run of the real functions on generated kernel states, call histories from real threads and Process histories.",
     "level_note": "Partial: IEEE doubles are modelled by exact rationals (tolerance stated); the sum-to-100 clause is false of the current code for 0 < total < 1 s (known finding, no repair that keeps test_cpu_steal_decrease green); Process.cpu_percent's formula assumes cpu_count() constant between two calls on one object; thread steps are dictionary accesses (GIL atomicity assumed).",
     "technique": "Lean 4 proofs (field arithmetic over ℚ, round-trip, induction over histories and interleavings) + translator-fed proof obligation + differential correspondence through a fake /proc/stat with real threads",
     "design_ref": "DESIGN.md §5 C07",
